@@ -713,6 +713,192 @@ fn c09_case(seed: u64, case: u64) -> (Verdict, String, String, bool, String, J, 
     }
 }
 
+
+// ====================================================================== C10
+#[derive(Clone, Copy, Debug)]
+enum SStep {
+    Suspend,
+    Delay(u64),
+}
+
+#[derive(Clone, Debug)]
+struct Stamp {
+    co: usize,
+    step: usize,
+    at: u64,
+    pass: u64,
+    due: u64, // wake-up time requested by the delay that just returned (0 = none)
+}
+
+fn c10_case(seed: u64, case: u64) -> (Verdict, String, String, bool, String, J, J) {
+    static PASS: AtomicU64 = AtomicU64::new(0);
+    let mut rng = Rng::for_case(seed ^ 0xC10, case);
+    let n = rng.usize(1, if case % 4 == 0 { 40 } else { 8 });
+    let progs: Vec<(Vec<SStep>, bool, i64)> = (0..n)
+        .map(|_| {
+            let k = rng.usize(0, 5);
+            let steps = (0..k).map(|_| if rng.chance(1, 2) { SStep::Suspend } else { SStep::Delay(rng.range(1, 25)) }).collect();
+            (steps, rng.chance(1, 6), rng.below(5) as i64 - 2)
+        })
+        .collect();
+    let log: Arc<Mutex<Vec<Stamp>>> = Arc::default();
+    let mut sch = Scheduler::new(format!("c10-{seed}-{case}"), 64 * 1024);
+    let mut ids = vec![];
+    for (i, (steps, panics, prio)) in progs.iter().enumerate() {
+        let (steps, panics, lg) = (steps.clone(), *panics, log.clone());
+        let id = sch
+            .submit_co(
+                move |s: &SchedulableSuspender, ()| -> Option<usize> {
+                    lg.lock().unwrap().push(Stamp { co: i, step: 0, at: now(), pass: PASS.load(Ordering::SeqCst), due: 0 });
+                    for (k, st) in steps.iter().enumerate() {
+                        let mut due = 0;
+                        match *st {
+                            SStep::Suspend => s.suspend(),
+                            SStep::Delay(ms) => {
+                                due = now() + ms * 1_000_000;
+                                s.until(due);
+                            }
+                        }
+                        lg.lock().unwrap().push(Stamp { co: i, step: k + 1, at: now(), pass: PASS.load(Ordering::SeqCst), due });
+                    }
+                    if panics {
+                        panic!("c10 scripted panic of coroutine {i}");
+                    }
+                    Some(1000 + i)
+                },
+                None,
+                Some(*prio),
+            )
+            .expect("submit_co");
+        ids.push(id);
+    }
+    // cancel plan: (pass index at which to request, coroutine)
+    let ncancel = if rng.chance(1, 2) { rng.usize(1, 1 + n / 4) } else { 0 };
+    let cancels: Vec<(u64, usize)> = (0..ncancel).map(|_| (rng.range(0, 6), rng.usize(0, n - 1))).collect();
+    let mut cancelled_at: Vec<Option<(u64, usize)>> = vec![None; n]; // (time, stamps already logged)
+    let mut results: std::collections::HashMap<u64, Vec<Result<Option<usize>, String>>> = std::collections::HashMap::new();
+    let mut pass_starts: Vec<u64> = vec![];
+    let mut viol: Option<(String, String)> = None;
+    let t_end = std::time::Instant::now() + Duration::from_secs(8);
+    let mut pass_no = 0u64;
+    loop {
+        for (at, c) in &cancels {
+            if *at == pass_no && cancelled_at[*c].is_none() {
+                // requested between passes: the coroutine is not running, so this is "before its next resumption"
+                Scheduler::try_cancel_coroutine(ids[*c]);
+                let stamps = log.lock().unwrap().iter().filter(|s| s.co == *c).count();
+                cancelled_at[*c] = Some((now(), stamps));
+            }
+        }
+        pass_no += 1;
+        PASS.store(pass_no, Ordering::SeqCst);
+        pass_starts.push(now());
+        match sch.try_timed_schedule(Duration::from_millis(150)) {
+            Ok((_, r)) => {
+                for (id, v) in r {
+                    results.entry(id).or_default().push(v.map_err(|e| e.to_string()));
+                }
+            }
+            Err(e) => {
+                viol = Some(("scheduling-pass-failed".into(), e.to_string()));
+                break;
+            }
+        }
+        let lg = log.lock().unwrap();
+        let all_done = (0..n).all(|i| {
+            results.contains_key(&ids[i])
+                || cancelled_at[i].is_some_and(|(_, k)| {
+                    // cancelled: done unless it had already finished its body before the request
+                    let _ = k;
+                    true
+                })
+        });
+        drop(lg);
+        if all_done && pass_no >= 8 {
+            break;
+        }
+        if std::time::Instant::now() > t_end {
+            break;
+        }
+        std::thread::sleep(Duration::from_millis(rng.below(12)));
+    }
+    // let cancelled sleepers reach the ready queue and be discarded, so the scheduler can be dropped cleanly
+    std::thread::sleep(Duration::from_millis(30));
+    let _ = sch.try_timed_schedule(Duration::from_millis(50));
+    let lg = log.lock().unwrap().clone();
+    if viol.is_none() {
+        for i in 0..n {
+            let mine: Vec<&Stamp> = lg.iter().filter(|s| s.co == i).collect();
+            let res = results.get(&ids[i]);
+            // (1) results exactly once, own value
+            if let Some(rs) = res {
+                if rs.len() > 1 {
+                    viol = Some(("result-reported-twice".into(), format!("coroutine {i}: {rs:?}")));
+                    break;
+                }
+                let want: Result<Option<usize>, String> = if progs[i].1 { Err(format!("c10 scripted panic of coroutine {i}")) } else { Ok(Some(1000 + i)) };
+                if rs[0] != want {
+                    viol = Some(("result-belongs-to-someone-else".into(), format!("coroutine {i}: reported {:?}, its own outcome is {want:?}", rs[0])));
+                    break;
+                }
+            }
+            // (2) delays
+            for s in &mine {
+                if s.due != 0 {
+                    if s.at < s.due {
+                        viol = Some(("resumed-before-wake-up-time".into(), format!("coroutine {i} step {} resumed {} ns early", s.step, s.due - s.at)));
+                        break;
+                    }
+                    // first pass that started at or after the wake-up time
+                    if let Some(p) = pass_starts.iter().position(|t| *t >= s.due) {
+                        if s.pass > (p as u64 + 1) {
+                            viol = Some(("not-resumed-by-first-pass-after-wake-up".into(), format!("coroutine {i} step {}: due before pass {} started, resumed in pass {}", s.step, p + 1, s.pass)));
+                            break;
+                        }
+                    }
+                }
+            }
+            if viol.is_some() {
+                break;
+            }
+            // (3) cancels
+            if let Some((t, before)) = cancelled_at[i] {
+                let finished_before = mine.len() == progs[i].0.len() + 1 && before == mine.len() && res.is_some();
+                if !finished_before {
+                    if mine.len() > before {
+                        viol = Some(("resumed-after-cancel".into(), format!("coroutine {i} was resumed {} more time(s) after the cancel request at {t}", mine.len() - before)));
+                        break;
+                    }
+                    if res.is_some() && before < progs[i].0.len() + 1 {
+                        viol = Some(("cancelled-coroutine-reported-a-result".into(), format!("coroutine {i}")));
+                        break;
+                    }
+                }
+            } else if res.is_none() {
+                viol = Some(("coroutine-never-finished".into(), format!("coroutine {i} (not cancelled) has no result after {} passes; stamps {}", pass_no, mine.len())));
+                break;
+            } else if mine.len() != progs[i].0.len() + 1 {
+                viol = Some(("finished-without-running-all-steps".into(), format!("coroutine {i}: {} stamps, expected {}", mine.len(), progs[i].0.len() + 1)));
+                break;
+            }
+        }
+    }
+    let delays = progs.iter().map(|p| p.0.iter().filter(|s| matches!(s, SStep::Delay(_))).count()).sum::<usize>();
+    let desc = jobj! {"coroutines" => n, "programs" => progs.iter().take(8).map(|p| format!("{:?}{} prio {}", p.0, if p.1 {" panic"} else {""}, p.2)).collect::<Vec<_>>(),
+        "cancel_requests_before_pass" => cancels.iter().map(|(a, c)| format!("pass {a}: co{c}")).collect::<Vec<_>>()};
+    let fp = fp_of(&format!("{:?}{:?}", progs.iter().map(|p| p.0.len()).collect::<Vec<_>>(), cancels));
+    let obs = jobj! {"passes" => pass_no, "resumption_stamps" => lg.len(), "results" => results.len(), "delays" => delays, "cancel_requests" => cancels.len()};
+    if viol.is_some() {
+        std::mem::forget(sch); // never run Drop assertions on a broken state; the caller exits the process
+    } else {
+        drop(sch);
+    }
+    match viol {
+        Some((k, d)) => (Verdict::Violated, format!("C10/{k}"), d, true, fp, obs, desc),
+        None => (Verdict::Held, String::new(), String::new(), n >= 2 && delays > 0, fp, obs, desc),
+    }
+}
+
 // ====================================================================== C25 on real coroutines
 mod c25 {
     use super::*;
@@ -809,6 +995,7 @@ fn main() {
             "c08" => c08_case(seed, case),
             "c09" => c09_case(seed, case),
             "c25" => c25::case(seed, case),
+            "c10" => c10_case(seed, case),
             other => {
                 eprintln!("unknown subcommand {other}");
                 std::process::exit(64);
@@ -816,5 +1003,8 @@ fn main() {
         };
         out.line(&jobj! {"t" => "desc", "case" => case, "desc" => desc});
         out.end(case, v, &sig, nt, &fp, obs, &detail);
+        if which == "c10" && v == Verdict::Violated {
+            std::process::exit(3); // leaked scheduler state would pollute later cases (shared global queue)
+        }
     }
 }
